@@ -271,3 +271,39 @@ template <class K> bool overflow_plausible(const std::vector<cx> &a, const std::
     }
     return false;
 }
+
+// Largest magnitude that occurs when op(A) x = b is solved with the given factors, evaluated in long double.
+// If the library's X is not finite but this stays far below the overflow threshold of the working precision,
+// overflow cannot be the explanation.
+template <class K>
+long double solve_magnitude(int n, const std::vector<cx> &Ld, const std::vector<cx> &Ud, const int *perm_r, const int *perm_c, int trant,
+                            const std::vector<cx> &Bhat, int nrhs) {
+    long double mx = 0;
+    auto upd = [&](const cx &v) { long double a = std::abs(v); if (a == a && a > mx) mx = a; if (!(a == a)) mx = INFINITY; };
+    std::vector<cx> y(n), z(n);
+    for (int r = 0; r < nrhs; r++) {
+        const cx *b = &Bhat[(size_t)r * n];
+        if (trant == 0) {
+            for (int i = 0; i < n; i++) y[perm_r[i]] = b[i];
+            for (int k = 0; k < n; k++) { upd(y[k]); for (int i = k + 1; i < n; i++) { cx l = Ld[(size_t)i + (size_t)k * n]; if (l != cx(0)) y[i] -= l * y[k]; } }
+            for (int k = n - 1; k >= 0; k--) { cx d = Ud[(size_t)k + (size_t)k * n]; if (d == cx(0)) return INFINITY; y[k] /= d; upd(y[k]); for (int i = 0; i < k; i++) { cx u = Ud[(size_t)i + (size_t)k * n]; if (u != cx(0)) y[i] -= u * y[k]; } }
+        } else {
+            for (int i = 0; i < n; i++) z[perm_c[i]] = b[i];
+            for (int k = 0; k < n; k++) { // U^T (or U^H) forward
+                cx d = Ud[(size_t)k + (size_t)k * n]; if (trant == 2) d = std::conj(d); if (d == cx(0)) return INFINITY;
+                cx acc = z[k]; for (int i = 0; i < k; i++) { cx u = Ud[(size_t)i + (size_t)k * n]; if (trant == 2) u = std::conj(u); if (u != cx(0)) acc -= u * z[i]; }
+                z[k] = acc / d; upd(z[k]);
+            }
+            for (int k = n - 1; k >= 0; k--) { // L^T backward (unit diagonal)
+                cx acc = z[k]; for (int i = k + 1; i < n; i++) { cx l = Ld[(size_t)i + (size_t)k * n]; if (trant == 2) l = std::conj(l); if (l != cx(0)) acc -= l * z[i]; }
+                z[k] = acc; upd(z[k]);
+            }
+        }
+    }
+    return mx;
+}
+template <class K> bool solve_may_overflow(int n, const std::vector<cx> &Ld, const std::vector<cx> &Ud, const int *perm_r, const int *perm_c, int trant,
+                                           const std::vector<cx> &Bhat, int nrhs) {
+    const long double lim = sizeof(typename K::real) == 4 ? 3.4e38L * 1e-6L : 1.7e308L * 1e-12L;
+    return solve_magnitude<K>(n, Ld, Ud, perm_r, perm_c, trant, Bhat, nrhs) > lim;
+}
